@@ -92,11 +92,25 @@ def prop_arms(F, exec_path):
     if f is None:
         return None
     ms = [m for m in H.walk(H.body_of(f)) if m.get("k") == "match" and not H.is_try(m) and H.render(m["scrut"]) == "prop"]
+    # the dispatch is the outermost of them (an arm shared by several properties may look at the property again)
+    inner = {id(x) for m in ms for a in m["arms"] for x in H.walk(a["body"]) if x.get("k") == "match"}
+    ms = [m for m in ms if id(m) not in inner]
     if len(ms) != 1:
         return None
     out = {}
+    lid = H.local_id(H.strip(ms[0]["scrut"]))
+    arms_ = []
     for a in ms[0]["arms"]:
         vs = [H.last(v) for v in H.pat_variants(a["pat"])]
+        if len(vs) > 1 and "*" not in vs and lid is not None and any(
+                x.get("k") in ("match", "bin") and any(H.local_id(H.strip(y)) == lid for y in (x.get("scrut"), x.get("l"), x.get("r")) if isinstance(y, dict))
+                for x in H.walk(a["body"])):
+            # `A | B => { .. match prop { A => x, _ => y } .. }`: the arm as it runs for each of its properties
+            for v in vs:
+                arms_.append(([v], dict(a, body=H.unlet(H.split_tuple_lets(H.specialise(a["body"], lid, v))))))
+        else:
+            arms_.append((vs, a))
+    for vs, a in arms_:
         if vs == ["*"]:
             out["*"] = {"kind": "default", "body": a["body"], "line": a.get("line")}
             continue
